@@ -3185,7 +3185,8 @@ class RomanNumeral(Harmony):
         except KeyError:
             loc_k = self.primary_degree
             glob_k = step.lower() if self.secondary_degree.islower() else step.upper()
-            root = step + INT_TO_ALT[alter]
+            # the key the degree is relative to keeps its alteration (e.g. "Eb")
+            glob_k += "#" * alter if alter > 0 else "b" * (-alter)
             root = process_local_key(loc_k, glob_k)
 
         return root
@@ -6196,7 +6197,7 @@ def process_local_key(loc_k, glob_k, return_step_alter=False):
     key_match = re.search(r"[a-gA-G]", glob_k)
     key_step = key_match.group(0)
     # the alteration follows the key letter ("b" alone is B minor, not a flat)
-    key_alter = re.search(r"[#b]", glob_k[key_match.end() :])
+    key_alter = re.search(r"[#b]+", glob_k[key_match.end() :])
     key_alter = key_alter.group(0) if key_alter else ""
     key_alter = key_alter.replace("b", "-")
     key_alter = ALT_TO_INT[key_alter]
